@@ -8,7 +8,7 @@ package main
 func skolemizeGoal(goal *Term) (*Term, []*Term) {
 	skTuples = nil
 	var sks []*Term
-	var pos func(t *Term) *Term
+	var pos, neg func(t *Term) *Term
 	pos = func(t *Term) *Term {
 		switch {
 		case t.Op == "forall" && t.Bound != nil:
@@ -31,7 +31,33 @@ func skolemizeGoal(goal *Term) (*Term, []*Term) {
 			}
 			return And(na...)
 		case t.Op == "=>" && len(t.Args) == 2:
-			return Implies(t.Args[0], pos(t.Args[1]))
+			// an existential in the antecedent is a universal of the implication: (exists x. A) => B
+			// is forall x. (A => B), so x can be a fresh constant as well
+			return Implies(neg(t.Args[0]), pos(t.Args[1]))
+		case t.Op == "=" && len(t.Args) == 2 && t.Args[0].Sort == SBool && t.Bound == nil && (hasQuant(t.Args[0], quantMemo) || hasQuant(t.Args[1], quantMemo)):
+			// a <=> b with quantifiers inside: treat as the two implications
+			a, b := t.Args[0], t.Args[1]
+			return And(pos(Implies(a, b)), pos(Implies(b, a)))
+		}
+		return t
+	}
+	// neg: skolemise existentials in a formula that occurs as an antecedent (negative position)
+	neg = func(t *Term) *Term {
+		switch {
+		case t.Op == "exists" && t.Bound != nil:
+			sub := map[int]*Term{}
+			for _, b := range t.Bound {
+				sk := B.Fresh("sk."+b.Op, b.Sort)
+				sub[b.id] = sk
+				sks = append(sks, sk)
+			}
+			return neg(Subst(t.Args[0], sub))
+		case t.Op == "and" && t.Bound == nil:
+			na := make([]*Term, len(t.Args))
+			for i, a := range t.Args {
+				na[i] = neg(a)
+			}
+			return And(na...)
 		}
 		return t
 	}
